@@ -7,7 +7,7 @@
      weight.rs (Weight::count), collector/mod.rs (default_collect_segment_impl).
    The output is an expression tree `dexpr` naming the scorer that is built; `dmem` is its
    set-theoretic meaning (membership of a doc id).  The definitions only -- proofs in ComposeProofs.v. *)
-From TV Require Import Base.Prelude Query.QuerySem.
+From TV Require Import Base.Prelude Query.QuerySem Generated.Constants.
 Local Open Scope N_scope.
 
 Inductive dexpr :=
@@ -41,6 +41,12 @@ Definition is_empty (e : dexpr) : bool := match e with DEmpty => true | _ => fal
 Definition is_nil {A} (l : list A) : bool := match l with [] => true | _ => false end.
 
 Definition ids (n : nat) : list N := map N.of_nat (seq 0 n).
+
+(* Shape of the one-clause shortcut of BooleanWeight::scorer(), re-read from the source on every run
+   (tools/pindefs/query.py): true = the shortcut returns EmptyScorer when minimum_number_should_match
+   exceeds the number of should clauses of the single clause; false = the minimum is ignored there
+   (the code before the fix of F31). *)
+Definition SHAPE : bool := N.eqb C03_SCORER_SINGLE_CLAUSE_CHECKS_MSM 1.
 
 Section Segment.
   Variable accepts : N -> N -> bool.
@@ -142,16 +148,20 @@ Section Segment.
   Definition complex_scorer_of (msm : nat) (scoring : bool) (ces : list (occur * dexpr)) : dexpr :=
     complex_scorer msm scoring (pick is_must ces) (pick is_should ces) (pick is_mustnot ces).
 
-  (* BooleanWeight::scorer : shortcuts for zero and one clause, else complex_scorer *)
-  Definition bool_scorer (msm : nat) (scoring : bool) (ces : list (occur * dexpr)) : dexpr :=
+  (* BooleanWeight::scorer : shortcuts for zero and one clause, else complex_scorer.
+     chk = the pinned shape of the one-clause shortcut (see SHAPE). *)
+  Definition bool_scorer (chk : bool) (msm : nat) (scoring : bool) (ces : list (occur * dexpr)) : dexpr :=
     match ces with
     | [] => DEmpty
-    | [(o, e)] => if is_mustnot o then DEmpty else e
+    | [(o, e)] =>
+        let num_should_clauses := if is_should o then 1%nat else 0%nat in
+        if is_mustnot o || (chk && Nat.ltb num_should_clauses msm) then DEmpty else e
     | _ => complex_scorer_of msm scoring ces
     end.
 
   Section Tree.
     (* leaf scorers: any function satisfying the contract stated in ComposeProofs.v *)
+    Variable chk : bool.
     Variable leaf_scorer : bool -> leaf -> dexpr.
 
     (* Weight::scorer(reader, boost) of the weight tree.  b1 = "the boost passed down is 1.0". *)
@@ -163,8 +173,8 @@ Section Segment.
       (* BoostQuery::weight / ConstScoreQuery::weight return the inner weight itself when scoring is disabled *)
       | QBoost one q' => if sc then scorer_model sc (b1 && one) q' else scorer_model sc b1 q'
       | QConst q' => if sc then DWrap (scorer_model sc b1 q') else scorer_model sc b1 q'
-      | QDisMax qs => bool_scorer 1 sc (map (fun q' => (Should, scorer_model sc b1 q')) qs)
-      | QBool msm cs => bool_scorer msm sc (map (fun c => (fst c, scorer_model sc b1 (snd c))) cs)
+      | QDisMax qs => bool_scorer chk 1 sc (map (fun q' => (Should, scorer_model sc b1 q')) qs)
+      | QBool msm cs => bool_scorer chk msm sc (map (fun c => (fst c, scorer_model sc b1 (snd c))) cs)
       end.
 
     (* Weight::for_each / for_each_no_score / for_each_pruning of the ROOT weight: BooleanWeight
@@ -208,16 +218,16 @@ Section Segment.
     end.
 
   (* Weight::count of the weight tree (scoring is disabled by Query::count and by the Count collector) *)
-  Fixpoint count_model_with (ls : bool -> leaf -> dexpr) (sc : bool) (q : query) : nat :=
+  Fixpoint count_model_with (chk : bool) (ls : bool -> leaf -> dexpr) (sc : bool) (q : query) : nat :=
     match q with
     | QLeaf (LTerm f t) =>
         if has_deletes then scorer_count (ls sc (LTerm f t))
         else length (postings (LTerm f t))                 (* term_info.doc_freq *)
-    | QBoost _ q' => count_model_with ls sc q'
-    | QConst q' => count_model_with ls sc q'
-    | _ => scorer_count (scorer_model ls sc true q)
+    | QBoost _ q' => count_model_with chk ls sc q'
+    | QConst q' => count_model_with chk ls sc q'
+    | _ => scorer_count (scorer_model chk ls sc true q)
     end.
-  Definition count_model := count_model_with std_leaf_scorer.
+  Definition count_model (chk : bool) := count_model_with chk std_leaf_scorer.
 
   Definition eval_ids (q : query) : list N :=
     filter (fun i => alive_at i && matches accepts (doc_at i) q) seg_ids.
